@@ -85,7 +85,8 @@ def _deliver(enc, cb):
 
 
 def _setup(case):
-    S.CTX.scenario = {"script": [[] for _ in range(case["nid"])] + [case["rules"]], "reuse_commands": bool(case.get("reuse"))}
+    S.CTX.scenario = {"script": [[] for _ in range(case["nid"])] + [case["rules"]], "reuse_commands": bool(case.get("reuse")),
+                      "host_plugin": case.get("host_plugin")}
     S.CTX.trace = []
 
 
@@ -229,7 +230,7 @@ def run_python_wrapper(case):
     timer, comm, mob = _Rec(log), _RecComm(log), _RecMob(log)
     node = Node()
     node.id = case["nid"]
-    node.position = (0.0, 0.0, 0.0)
+    node.position = (0.0, 0.0, 0.0) if not case.get("host_plugin") else (10.0, 20.0, 5.0)
     if case.get("real_mobility"):
         mob = _real_mobility(log)
         mob.register_node(node)
